@@ -193,10 +193,16 @@ func c19Harness(nNames int, allKinds bool) Harness {
 				bad++
 				continue
 			}
-			r, err := gtfs.ParseRealtime(b, c19Opts())
-			if err != nil {
+			// "parses as GTFS-realtime" is decided independently of the library: strict decoding of
+			// the bytes as a FeedMessage (required fields included)
+			if proto.Unmarshal(b, &gtfsrt.FeedMessage{}) != nil {
 				bad++
 				continue
+			}
+			r, err := gtfs.ParseRealtime(b, c19Opts())
+			if err != nil {
+				c.Fail("directory-source:good-file-rejected", "{%s}: file %s decodes as a FeedMessage but ParseRealtime rejects it: %v", d, n, err)
+				return
 			}
 			want = append(want, r)
 			wantNames = append(wantNames, n)
@@ -281,6 +287,69 @@ func scratchBase() string {
 }
 
 var c19QuickKinds = []int{0, 1, 2, 4, 6, 8, 9, 10, 11, 12, 13}
+
+// c19NameOrder: good files under names whose byte order differs from "natural", extension-less,
+// case-insensitive or numeric order: every subset of 4 of 10 names.
+var c19TrickyNames = []string{"snapshot.pb", "snapshot-2.pb", "snapshot (copy).pb", "snapshot.2.pb", "snapshot_3.pb", "Snapshot.pb", "snapshot.pb.1", "snapshot", "2.pb", "10.pb"}
+
+func c19NameOrder(c *Ctx) {
+	var idx []int
+	last := -1
+	for k := 0; k < 4; k++ {
+		remaining := len(c19TrickyNames) - (last + 1) - (3 - k)
+		j := last + 1 + c.Free(fmt.Sprintf("name[%d]", k), remaining)
+		idx = append(idx, j)
+		last = j
+	}
+	dir, err := os.MkdirTemp(scratchBase(), "verifc19N")
+	if err != nil {
+		harnessBug("mkdtemp: %v", err)
+	}
+	defer os.RemoveAll(dir)
+	var names []string
+	// every file gets its own feed time so that the order is visible in the results
+	for k, j := range idx {
+		ts := uint64(1700000000 + 60*k)
+		m := newFeed(&ts)
+		m.Entity = []*gtfsrt.FeedEntity{{Id: sp("e"), TripUpdate: &gtfsrt.TripUpdate{Trip: &gtfsrt.TripDescriptor{TripId: sp(fmt.Sprintf("06%d000_L..N01", k)), RouteId: sp("L")}}}}
+		if err := os.WriteFile(filepath.Join(dir, c19TrickyNames[j]), marshalFeed(m), 0644); err != nil {
+			harnessBug("write: %v", err)
+		}
+		names = append(names, c19TrickyNames[j])
+	}
+	sorted := append([]string{}, names...)
+	sort.Strings(sorted)
+	c.Input(hash64(strings.Join(names, "|")), true, func() string { return fmt.Sprintf("files %q, expected order %q", names, sorted) })
+	var src *journal.DirectoryGtfsrtSource
+	if !guardSig(c, "NewDirectoryGtfsrtSource", func() { src, err = journal.NewDirectoryGtfsrtSource(dir) }) || err != nil {
+		c.Fail("source-construction-failed", "%v", err)
+		return
+	}
+	var got []string
+	if !guardSig(c, "DirectoryGtfsrtSource.Next", func() {
+		for i := 0; i < 8; i++ {
+			r := src.Next()
+			if r == nil {
+				return
+			}
+			// which file was this? the feed time identifies it
+			k := int(r.CreatedAt.Unix()-1700000000) / 60
+			if k >= 0 && k < len(names) {
+				got = append(got, names[k])
+			} else {
+				got = append(got, "?")
+			}
+		}
+	}) {
+		return
+	}
+	c.Steps(5)
+	c.Outcome(strings.Join(got, "|"))
+	if strings.Join(got, "|") != strings.Join(sorted, "|") {
+		c.Fail("directory-source:wrong-order", "files %q were yielded in the order %q, lexicographic file-name order is %q", names, got, sorted)
+	}
+	c.Witness("tricky_names")
+}
 
 // c19LargeFeed builds a valid feed of at least size bytes (many trip updates).
 var c19LargeCache = map[int][]byte{}
@@ -377,14 +446,14 @@ func init() {
 	register(&Check{
 		ID:    "C19",
 		Level: "fault_enumeration",
-		Rule: "every assignment of {absent, good1, good2, good3, empty, cut-in-header, cut-in-entity, cut-last-byte, corrupt, sub-directory, vanishes after listing, replaced by a directory after listing, symlink to a good file, dangling symlink} to the names 10, 9, B, a, é (thorough: 14^5 = 537 824 directories; quick: the first 4 names, 14^4 = 38 416) - x 2 creation orders, on a real temporary directory; plus directories in which one of three good files is 70 KiB / 1 MiB / 4 MiB / 17 MiB large, at each position; " +
+		Rule: "every assignment of {absent, good1, good2, good3, empty, cut-in-header, cut-in-entity, cut-last-byte, corrupt, sub-directory, vanishes after listing, replaced by a directory after listing, symlink to a good file, dangling symlink} to the names 10, 9, B, a, é (thorough: 14^5 = 537 824 directories; quick: the first 4 names, 14^4 = 38 416) - x 2 creation orders, on a real temporary directory; plus every 4-subset of 10 file names whose byte order differs from extension-less / natural / case-insensitive order; plus directories in which one of three good files is 70 KiB / 1 MiB / 4 MiB / 17 MiB large, at each position; " +
 			"non-trivial = distinct directories with >= 2 entries; oracle = independent parses of the readable, parseable entries in byte order of their names, nil afterwards, and equality of the journals",
-		Assumptions: []string{"unreadable means: is a directory or no longer exists (the checks run as root, so permission faults cannot be produced)", "whether a damaged file still parses is decided by parsing its bytes independently"},
+		Assumptions: []string{"unreadable means: is a directory or no longer exists (the checks run as root, so permission faults cannot be produced)", "whether a damaged file still 'parses as GTFS-realtime' is decided independently of the library, by strictly decoding its bytes as a FeedMessage"},
 		Scenarios: func(tier string) []*Scenario {
 			if tier == "thorough" {
-				return []*Scenario{{Name: "directories-5-names-14-kinds", Bound: -1, Run: c19Harness(5, true)}, {Name: "large-files", Bound: -1, Run: c19Large}}
+				return []*Scenario{{Name: "directories-5-names-14-kinds", Bound: -1, Run: c19Harness(5, true)}, {Name: "large-files", Bound: -1, Run: c19Large}, {Name: "name-order", Bound: -1, Run: c19NameOrder}}
 			}
-			return []*Scenario{{Name: "directories-4-names-14-kinds", Bound: -1, Run: c19Harness(4, true)}, {Name: "large-files", Bound: -1, Run: c19Large}}
+			return []*Scenario{{Name: "directories-4-names-14-kinds", Bound: -1, Run: c19Harness(4, true)}, {Name: "large-files", Bound: -1, Run: c19Large}, {Name: "name-order", Bound: -1, Run: c19NameOrder}}
 		},
 	})
 }
